@@ -34,15 +34,14 @@ pub struct Case {
     pub close: Option<f64>,
 }
 
-/// Harness-side Kinematics wrapper: counts collision queries (one forward_with_joint_poses call each) and
-/// constraints() calls (one per planner iteration), raises the stop flag at the N-th query.
+/// Harness-side Kinematics wrapper: counts collision queries (one forward_with_joint_poses call each), raises the stop flag at the
+/// N-th query and notes how many random draws the sampler had made by then (verif_hooks::draws, same thread).
 pub struct Counting {
     pub inner: Arc<dyn Kinematics>,
     pub stop: Arc<AtomicBool>,
     pub raise_at: u64, // 0 = never
     pub queries: AtomicU64,
-    pub constraints_calls: AtomicU64,
-    pub constraints_after_raise: AtomicU64,
+    pub draws_at_raise: AtomicU64,
     pub raised: AtomicBool,
 }
 
@@ -63,10 +62,6 @@ impl Kinematics for Counting {
         self.inner.inverse_continuing_5dof(pose, prev)
     }
     fn constraints(&self) -> &Option<Constraints> {
-        self.constraints_calls.fetch_add(1, Ordering::SeqCst);
-        if self.raised.load(Ordering::SeqCst) {
-            self.constraints_after_raise.fetch_add(1, Ordering::SeqCst);
-        }
         self.inner.constraints()
     }
     fn kinematic_singularity(&self, qs: &Joints) -> Option<Singularity> {
@@ -76,6 +71,7 @@ impl Kinematics for Counting {
         let n = self.queries.fetch_add(1, Ordering::SeqCst) + 1;
         if self.raise_at != 0 && n == self.raise_at {
             self.stop.store(true, Ordering::SeqCst);
+            self.draws_at_raise.store(rs_opw_kinematics::verif_hooks::draws(), Ordering::SeqCst);
             self.raised.store(true, Ordering::SeqCst);
         }
         self.inner.forward_with_joint_poses(joints)
@@ -145,7 +141,7 @@ impl Property for C13 {
         vec![
             "every node is re-checked with the same robot's collides() (decided against brute force by C10) and with oracle A for the limits".into(),
             "'at most three planner steps apart' = Euclidean joint-space distance <= 3*step + 1e-9".into(),
-            "cancellation during planning: no new iteration may begin after the flag is raised (an iteration starts with exactly one constraints() call); Ok is tolerated for the iteration in flight".into(),
+            "cancellation during planning: no new iteration may begin after the flag is raised (an iteration starts by drawing a random sample; draws are counted by the verif_hooks generator wrapper); Ok is tolerated for the iteration in flight".into(),
         ]
     }
     fn plan(&self, tier: Tier) -> Plan {
@@ -230,8 +226,7 @@ impl Property for C13 {
             stop: stop.clone(),
             raise_at: if c.cancel % 3 == 2 { c.cancel_at as u64 } else { 0 },
             queries: AtomicU64::new(0),
-            constraints_calls: AtomicU64::new(0),
-            constraints_after_raise: AtomicU64::new(0),
+            draws_at_raise: AtomicU64::new(0),
             raised: AtomicBool::new(false),
         });
         let mut robot = built.robot;
@@ -278,7 +273,6 @@ impl Property for C13 {
             }
         };
         counting.queries.store(0, Ordering::SeqCst);
-        counting.constraints_calls.store(0, Ordering::SeqCst);
         let planner = RRTPlanner { step_size_joint_space: step, max_try: c.max_try as usize, debug: false };
         if c.cancel % 3 == 1 {
             stop.store(true, Ordering::SeqCst);
@@ -288,8 +282,8 @@ impl Property for C13 {
         rs_opw_kinematics::verif_hooks::clear_rng();
         let res = res.map_err(|m| viol!("planning never panics", "plan_rrt: {}", m))?;
         let raised_during = counting.raised.load(Ordering::SeqCst);
-        // stop interference of the flag with the re-check below
-        let after = counting.constraints_after_raise.load(Ordering::SeqCst);
+        // random draws of the sampler since the flag was raised (every planner iteration begins by drawing a new random sample)
+        let after = rs_opw_kinematics::verif_hooks::draws().wrapping_sub(counting.draws_at_raise.load(Ordering::SeqCst));
         match c.cancel % 3 {
             1 => {
                 ensure!(res.is_err(), "a raised cancellation flag makes the planner return an error instead of a path", "flag raised before the call, got a path of {} nodes", res.as_ref().map(|p| p.len()).unwrap_or(0));
@@ -307,7 +301,14 @@ impl Property for C13 {
                 return Ok(());
             }
             2 if raised_during => {
-                ensure!(after == 0, "after the cancellation flag is raised no further planner iteration begins", "{} iteration(s) started after the flag was raised at collision query {}", after, c.cancel_at);
+                ensure!(after == 0, "after the cancellation flag is raised no further planner iteration begins", "the sampler made {} random draw(s) after the flag was raised at collision query {} (a new iteration draws a new sample)", after, c.cancel_at);
+                // the flag belongs to the caller: it stays raised, and a further call given the same flag is refused
+                ensure!(stop.load(Ordering::SeqCst), "a raised cancellation flag makes the planner return an error instead of a path", "the planner lowered the caller's cancellation flag");
+                rs_opw_kinematics::verif_hooks::seed_rng(c.rng_seed.wrapping_add(1));
+                let again = no_panic(|| planner.plan_rrt(&start, &goal, &robot, &stop));
+                rs_opw_kinematics::verif_hooks::clear_rng();
+                let again = again.map_err(|m| viol!("planning never panics", "plan_rrt: {}", m))?;
+                ensure!(again.is_err(), "a raised cancellation flag makes the planner return an error instead of a path", "a second call with the same, still raised flag returned a path of {} nodes", again.as_ref().map(|p| p.len()).unwrap_or(0));
                 ctx.class(if res.is_ok() { "cancel:during -> Ok (iteration in flight)" } else { "cancel:during -> Err" });
                 ctx.nontrivial();
             }
